@@ -59,7 +59,7 @@ def features(sel):
 
 def _worker(behs):
     from py_gql import build_schema, process_graphql_query
-    from py_gql.lang import parse
+    from py_gql.lang import parse, print_ast
     from py_gql.utilities import MaxDepthValidationRule
     from py_gql.validation import validate_ast
     schema = build_schema(SCHEMA_SDL)
@@ -78,6 +78,7 @@ def _worker(behs):
             if len(docs) > 2000:
                 docs.clear()
             doc = docs[text] = parse(text)
+        printed_before = print_ast(doc)
         variables = {"v": b["v"]} if var else {}
         fl = b["flagged"]
         feat = features(sel)
@@ -110,6 +111,10 @@ def _worker(behs):
                 if got != exp:
                     kind = "not-flagged" if len(got) < len(exp) else ("spurious-flag" if len(got) > len(exp) else "wrong-operation")
                     out.setdefault("depth/%s/%s" % (kind, feat), ["flagged operations differ from the specification", dict(wit, got=got)])
+        # a validator reads the document: the tree it was given is the same afterwards (servers cache parsed documents)
+        if print_ast(doc) != printed_before:
+            out.setdefault("depth/document-modified/%s" % feat, ["the rule changed the document it measured", {"text": text, "after": print_ast(doc)[:600]}])
+            docs.pop(text, None)
         # ---- the same selection as the document's only, ANONYMOUS operation: a name filter selects nothing, no filter measures it
         extra = (hash(text) % 3 == 0)
         if b["filter"] != "B" and extra:
